@@ -28,7 +28,7 @@ func init() {
 			"every forest of <=2 (thorough 3) objects is probed a second time after 10 operations per object that only read it (merging literals, ** into calls/maps, digest, chain digest, bear/bro, listing, comparing, printing, patch, del); " +
 			"chains of n bears for 20 lengths n up to 200 (a name owned by the far end, the far _missing, proto/ancestors/which/kindOf?); " +
 			"o.n, o.n(9), o['n], which for n in {a,b,c}, proto, ancestors, keys, keys(private?), kindOf? against every object; states = forests, transitions = operations; " +
-			"non-trivial = forest with inheritance (at least one bear/bro); distinct = distinct operation sequence; round 7: A fourth family gives plain-value properties other kinds of non-callable values (an object descending from a function, an iterator literal), depth 2 (thorough 3).; round 8: Forests may be rooted at nil; for every object the walk passes Obj and ends at BaseObj and kindOf? agrees; one list-chain call with three arguments runs over all objects of each forest.",
+			"non-trivial = forest with inheritance (at least one bear/bro); distinct = distinct operation sequence; round 7: A fourth family gives plain-value properties other kinds of non-callable values (an object descending from a function, an iterator literal), depth 2 (thorough 3).; round 8: Forests may be rooted at nil; for every object the walk passes Obj and ends at BaseObj and kindOf? agrees; one list-chain call with three arguments runs over all objects of each forest.; round 10: one scalar call site (block body / function body) is evaluated for every object of the forest in turn, in both orders.",
 		Assumptions: []string{
 			"objects are identified by an own `id` (or private `_id`) property; the names a, b, c are not defined on the built-in prototypes",
 			"histories are not merged (the whole history tree is explored), so no abstraction of hidden state is assumed",
@@ -269,6 +269,9 @@ func (t tcase) probes() []probe {
 	// the same property called on all objects of the forest by one list chain with three arguments (one argument
 	// array serves every element: a lookup that falls back to _missing must not disturb the next element's call)
 	lcRecv, lcWant := map[string][]string{}, map[string][]string{}
+	// ... and by ONE scalar call site (the body of a block / of a function) that is evaluated for every object of the
+	// forest in turn, in both orders: what the site found for one receiver says nothing about the next
+	siteRecv, siteWant := map[string][]string{}, map[string][]string{}
 	for k := 0; k < n; k++ {
 		ch := t.chain(k)
 		names := []string{"a", "b", "c"}
@@ -317,6 +320,14 @@ func (t tcase) probes() []probe {
 				return probe{src: src, want: "E:NoPropErr: property `" + name + "` is not defined.", what: "call/no-prop", raises: true}
 			}
 			ps = append(ps, call("nil"), call("9"))
+			if p9 := call("9"); name != "S" {
+				siteRecv[name] = append(siteRecv[name], v)
+				if p9.raises {
+					siteWant[name] = append(siteWant[name], "[nil, ["+strings.TrimPrefix(p9.want, "E:")+"]]")
+				} else {
+					siteWant[name] = append(siteWant[name], "["+p9.want+", nil]")
+				}
+			}
 			if p9 := call("9"); !p9.raises && name != "S" {
 				lcRecv[name] = append(lcRecv[name], v)
 				lcWant[name] = append(lcWant[name], p9.want)
@@ -424,6 +435,20 @@ func (t tcase) probes() []probe {
 		ps = append(ps, probe{src: "\"ea := 1; _ep := 2; eb := 3\".evalEnv.{|ee| [ee.keys, ee.keys(private?: true), ee.values, ee.bear({z: 9}).ea, ee.bear({z: 9}).keys, ee.which('ea) == ee]}", want: `[["ea", "eb"], ["ea", "eb", "_ep"], [1, 3], 1, ["z"], true]`, what: "object-from-evaluated-text"})
 	}
 	for _, name := range []string{"a", "b", "c"} {
+		if len(siteRecv[name]) >= 2 {
+			rv, wt := siteRecv[name], siteWant[name]
+			rrv, rwt := make([]string, len(rv)), make([]string, len(wt))
+			for i := range rv {
+				rrv[len(rv)-1-i], rwt[len(wt)-1-i] = rv[i], wt[i]
+			}
+			ps = append(ps, probe{src: "[" + strings.Join(rv, ", ") + "]@{|o| nil.try.{|u| o." + name + "(9)}.A}", want: "[" + strings.Join(wt, ", ") + "]", what: "one-call-site-for-all-objects"})
+			ps = append(ps, probe{src: "[" + strings.Join(rrv, ", ") + "]@{|o| nil.try.{|u| o." + name + "(9)}.A}", want: "[" + strings.Join(rwt, ", ") + "]", what: "one-call-site-for-all-objects"})
+			var calls []string
+			for _, r := range rv {
+				calls = append(calls, "nil.try.{|u| look("+r+")}.A")
+			}
+			ps = append(ps, probe{src: "{|look| [" + strings.Join(calls, ", ") + "]}({|o| o." + name + "(9)})", want: "[" + strings.Join(wt, ", ") + "]", what: "one-call-site-for-all-objects"})
+		}
 		if len(lcRecv[name]) >= 2 {
 			ps = append(ps, probe{src: "[" + strings.Join(lcRecv[name], ", ") + "]@" + name + "(9, 8, 7)", want: "[" + strings.Join(lcWant[name], ", ") + "]", what: "list-chain-call"})
 		}
